@@ -256,6 +256,27 @@ NumToken(s) ==
                     (IF s[1] = 46 THEN {"float-dot-first"} ELSE {}),
           fv |-> FloatVal(s, sh)]
 
+(* Go-isms: numeric spellings that Go's strconv accepts (ParseInt / ParseUint with base 0,
+   ParseFloat) and that protoc's tokenizer does not have.  All of them are Reject with
+   certainty, by the rules already stated above:
+     rej:go-underscore  '_' digit separators  1_000  0x1_F  0x_1F  1_0.5  1e1_0  0_7
+                        ('_' is a letter for the tokenizer: a letter directly after a number is an
+                        error, and "0x" must be followed by a hex digit)
+     rej:go-binary      0b101  0B1            ('b' is a letter directly after the number 0)
+     rej:go-octal-o     0o17   0O7            (likewise)
+     rej:go-hexfloat    0x1p-2  0x1.8p1       ('p' is not a hex digit; '.' after a hex literal:
+                        "hex and octal numbers must be integers")
+   The ids are added to `rules` of the rejected text so that evidence and classification name
+   the form; MCLiterals checks as an invariant that no such text is ever "ok" or "uncertain".
+   (Identifier spellings such as Inf / NaN / infinity are not numeric tokens; which identifiers
+   the parser accepts after '=' or '-' is not a tokenizer rule and is left out.) *)
+GoIsms(s) ==
+  (IF \E i \in 1..Len(s) : s[i] = 95 THEN {"rej:go-underscore"} ELSE {}) \cup
+  (IF Len(s) >= 2 /\ s[1] = 48 /\ s[2] \in {98, 66} THEN {"rej:go-binary"} ELSE {}) \cup
+  (IF Len(s) >= 2 /\ s[1] = 48 /\ s[2] \in {111, 79} THEN {"rej:go-octal-o"} ELSE {}) \cup
+  (IF Len(s) >= 3 /\ s[1] = 48 /\ s[2] \in {120, 88} /\ \E i \in 3..Len(s) : s[i] \in {112, 80}
+   THEN {"rej:go-hexfloat"} ELSE {})
+
 (* the value position: [-] token.  Expected outcome per field type:
      i64 / u64 / dbl  \in  "acc" | "rej" | "skip"   (skip = not stated with certainty) *)
 NumDecode(t) ==
@@ -264,7 +285,7 @@ NumDecode(t) ==
   IN IF body = <<>> THEN [st |-> "reject", kind |-> "none", rules |-> {"rej:empty"}, neg |-> neg,
                           i64 |-> "rej", u64 |-> "rej", dbl |-> "rej"]
      ELSE LET r == NumToken(body) IN
-       IF r.st # "ok" THEN [st |-> r.st, kind |-> "none", rules |-> r.rules, neg |-> neg,
+       IF r.st # "ok" THEN [st |-> r.st, kind |-> "none", rules |-> r.rules \cup GoIsms(body), neg |-> neg,
                             i64 |-> "rej", u64 |-> "rej", dbl |-> "rej"]
        ELSE IF r.kind = "int" THEN
          [st |-> "ok", kind |-> "int", rules |-> r.rules \cup (IF neg THEN {"neg"} ELSE {}), neg |-> neg,
